@@ -23,6 +23,8 @@
 #   np.array(<list of floats / float rows>, dtype=np.float32)    the list              (rounding between float widths is outside every theorem)
 #   np.matmul(a, b.T)  (2-d)                                     Py.Nf.matmulT a b
 #   m + c  (2-d float array, float scalar)                       Py.Nf.addScalar2 m c
+#   m == c  (2-d float array, literal 0 / 1 / -1)                Py.Nf.eqScalar2 m c   (a 2-d boolean mask; entry: neither x < c nor c < x)
+#   np.where(mask, c, m)  (2-d mask, literal, 2-d float array)   Py.Nf.whereS2 mask c m   (c where the mask holds, else the entry of m; unequal shapes raise)
 #   a / b  (2-d float arrays)                                    Py.Nf.div2 a b        (zero divisor raises)
 #   np.clip(m, lo, hi)  (2-d, numeric literals)                  Py.Nf.clip2 m lo hi
 #   np.arccos(m)  (2-d)                                          Py.Nf.map2 acos m     (the function parameter `acos`)
@@ -114,9 +116,12 @@ def _nf_expr(tr, e, want):
     # --- x == c / x != c on a float scalar and a numeric literal (K has a decidable order, no decidable equality: neither x < c nor c < x)
     if isinstance(e, ast.Compare) and len(e.ops) == 1 and isinstance(e.ops[0], (ast.Eq, ast.NotEq)) and _nf_lit(tr, e.comparators[0], K):
         s1, a, ta = tr.tr(e.left)
+        c = _nf_lit(tr, e.comparators[0], K)
+        if _nf_depth(ta, tr) == 2 and ta[0] == "List" and isinstance(e.ops[0], ast.Eq):
+            # m == c on a 2-d float array: the elementwise mask
+            return s1, f"(Py.Nf.eqScalar2 {a} {c})", ("List", ("List", "Bool"))
         if ta != K:
             return None
-        c = _nf_lit(tr, e.comparators[0], K)
         eq = f"(!(decide ({a} < {c}) || decide ({c} < {a})))"
         return s1, eq if isinstance(e.ops[0], ast.Eq) else f"(!{eq})", "Bool"
     # --- subtraction of float arrays
@@ -190,6 +195,12 @@ def _nf_expr(tr, e, want):
         if _nf_depth(ta, tr) == 2 and tb == ta:
             n = tr.bindname()
             return s1 + s2 + [f"Py.bind (Py.Nf.matmulT {a} {b}) fun {n} =>"], n, ta
+        return None
+    if f == "np.where" and len(args) == 3 and not kw and _nf_lit(tr, args[1], K):
+        s1, m, tm = tr.tr(args[0]); s2, a, ta = tr.tr(args[2])
+        if tm == ("List", ("List", "Bool")) and _nf_depth(ta, tr) == 2 and ta[0] == "List":
+            n = tr.bindname()
+            return s1 + s2 + [f"Py.bind (Py.Nf.whereS2 {m} {_nf_lit(tr, args[1], K)} {a}) fun {n} =>"], n, ta
         return None
     if f == "np.clip" and len(args) == 3 and not kw:
         s0, c, t = tr.tr(args[0])
@@ -319,7 +330,7 @@ _ACOS = ["(acos : K → K)"]
 spec(lean="nf_calc_angle", module="AlgoNodeFeat", file=_FEAT, cls="BranchFeatures", func="calc_angle",
      params=["axyz", "branches", "eps"], num_tparams=["K"], fparams=["(F : Py.Fld K)"] + _NORM + _ACOS,
      vars={"axyz": "List (List K)", "branches": "List (List Int)", "eps": "K", "br": "List Int", "vector": "List (List K)",
-           "vector_dot": "List (List K)", "vector_norm": "List (List K)", "vector_norm_dot": "List (List K)", "arccos": "List (List K)",
+           "vector_dot": "List (List K)", "vector_norm": "List (List K)", "vector_norm_dot": "List (List K)", "degenerate": "List (List Bool)", "arccos": "List (List K)",
            "angle": "List (List K)"}, ret="List (List K)",
      # GLUE: member k of a branch (`Path.__getitem__` -> `Path.node`) is row `br.idx[k]` of the attached table; `.xyz()` is its coordinate row
      subst={"br[-1].xyz()": ("t_e", "List K", ["Py.bind (Py.idx v.br (-1)) fun t_ei =>", "Py.bind (Py.idx v.axyz t_ei) fun t_e =>"]),
